@@ -643,37 +643,6 @@ func (p *Parser) parseSimpleExpression() (Node, error) {
 		if token.Value == "(" {
 			p.tokenIndex++ // Skip "("
 
-			// Check for unary operator immediately after opening parenthesis
-			if p.tokenIndex < len(p.tokens) &&
-				p.tokens[p.tokenIndex].Type == TOKEN_OPERATOR &&
-				(p.tokens[p.tokenIndex].Value == "-" || p.tokens[p.tokenIndex].Value == "+") {
-
-				// Handle unary operation inside parentheses
-				unaryToken := p.tokens[p.tokenIndex]
-				operator := unaryToken.Value
-				line := unaryToken.Line
-				p.tokenIndex++ // Skip the operator
-
-				// Parse the operand
-				operand, err := p.parseExpression()
-				if err != nil {
-					return nil, err
-				}
-
-				// Create a unary node
-				expr := NewUnaryNode(operator, operand, line)
-
-				// Expect closing parenthesis
-				if p.tokenIndex >= len(p.tokens) ||
-					p.tokens[p.tokenIndex].Type != TOKEN_PUNCTUATION ||
-					p.tokens[p.tokenIndex].Value != ")" {
-					return nil, fmt.Errorf("expected closing parenthesis at line %d", token.Line)
-				}
-				p.tokenIndex++ // Skip ")"
-
-				return expr, nil
-			}
-
 			// Regular parenthesized expression
 			expr, err := p.parseExpression()
 			if err != nil {
@@ -1103,8 +1072,9 @@ func (p *Parser) parseBinaryExpression(left Node) (Node, error) {
 	// Create the current binary node
 	binaryNode := NewBinaryNode(operator, left, right, line)
 
-	// Check for another binary operator
-	if p.tokenIndex < len(p.tokens) &&
+	// While the next operator binds tighter than this one it belongs to the right operand:
+	// a + b * c * d is a + ((b * c) * d)
+	for p.tokenIndex < len(p.tokens) &&
 		(p.tokens[p.tokenIndex].Type == TOKEN_OPERATOR ||
 			(p.tokens[p.tokenIndex].Type == TOKEN_NAME &&
 				(p.tokens[p.tokenIndex].Value == "and" ||
@@ -1141,27 +1111,23 @@ func (p *Parser) parseBinaryExpression(left Node) (Node, error) {
 
 		nextPrecedence := getOperatorPrecedence(nextOperator)
 
-		// If the next operator has higher precedence, we need to parse it first
-		if nextPrecedence > precedence {
-			// Replace the right side with a binary expression
-			newRight, err := p.parseBinaryExpression(right)
-			if err != nil {
-				return nil, err
-			}
-
-			// Update the binary node with the new right side
-			binaryNode = NewBinaryNode(operator, left, newRight, line)
+		// Operators that do not bind tighter are left to the caller
+		if nextPrecedence <= precedence {
+			break
 		}
+
+		// Extend the right side by the tighter operator and its operand
+		right, err = p.parseBinaryExpression(right)
+		if err != nil {
+			return nil, err
+		}
+
+		// Update the binary node with the new right side
+		binaryNode = NewBinaryNode(operator, left, right, line)
 	}
 
-	// Check for ternary operator after parsing the binary expression
-	if p.tokenIndex < len(p.tokens) &&
-		p.tokens[p.tokenIndex].Type == TOKEN_PUNCTUATION &&
-		p.tokens[p.tokenIndex].Value == "?" {
-		// This is a conditional expression, use the binary node as the condition
-		return p.parseConditionalExpression(binaryNode)
-	}
-
+	// The conditional operator binds weaker than every binary operator: parseExpression
+	// looks for it once all binary operators have been consumed
 	return binaryNode, nil
 }
 
